@@ -11,6 +11,9 @@ import itertools
 import os
 import z3
 from contracts.common import *  # noqa
+from contracts import structure
+from contracts.structure import *  # noqa
+from contracts.deferred_c import *  # noqa
 from contracts import common
 from contracts.compiler_c import compiler_obj
 from contracts.cli_c import unit_main_cli  # noqa
@@ -274,6 +277,9 @@ def units(tier):
             us.append(("site[%s,%d]" % (cmd, n), "unit_data", dict(cmd=cmd, n=n)))
     for cmd in (".blkb", ".blkw", ".even", ".odd", ".align"):
         us.append(("site[%s]" % cmd, "unit_fill", dict(cmd=cmd)))
+    # whole programs: the statement holds wherever a statement stands (repeat body, included / linked file, any block) - contracts/structure.py
+    us += structure.units()
+    us += structure.kernel_units()
     return us
 
 
@@ -326,6 +332,9 @@ def _include_listing(tree):
 
 
 def replay(o, tree):
+    r_ = structure.replay(o, tree)
+    if r_ is not None:
+        return r_
     import os
     if o.get("unit", "").startswith("generate_listing["):
         r = _include_listing(tree)
